@@ -312,8 +312,95 @@ def debug_isolation(ctx):
             ctx.case({'leaf': name, 'shape': shape, 'history': history[-1:]}, nontrivial_key=('dbgiso', it, step) if kind == 'err' else None, kind='debug-isolation:' + shape)
 
 
+def part_interval(ctx):
+    """IntervalGrader.check_response (brackets graded on top of the two bounds) over a table-driven subgrader for the bounds, vs the model"""
+    from mitxgraders import FormulaGrader, IntervalGrader
+    from voluptuous import Required, Schema
+    rng = ctx.rng
+
+    class TableFormula(FormulaGrader):
+        @property
+        def schema_config(self):
+            return super(TableFormula, self).schema_config.extend({Required('table', default={}): dict})
+
+        @staticmethod
+        def validate_expect(expect):
+            return Schema(str)(expect)
+
+        def check_response(self, answer, student_input, **kwargs):
+            t = self.config['table'].get((answer['expect'], student_input))
+            if t is None:
+                return {'ok': False, 'grade_decimal': 0, 'msg': ''}
+            credit, msg = t
+            g = credit * answer['grade_decimal']
+            ok = answer['ok'] if credit == 1 else self.grade_decimal_to_ok(g)
+            return {'ok': ok, 'grade_decimal': g, 'msg': answer['msg'] if (credit > 0 and msg == '') else msg}
+
+    asks, meta = [], []
+    pal = GG.DYAD
+    for it in range(ctx.scale(60, 900)):
+        tab, tj = GG.gen_table(rng, pal, raises=0.0, inputs=['a', 'b', 'c', 'x', ' a', 'a '], density=0.6)
+        sub = TableFormula(table=tab, wrong_msg=rng.choice(['', 'w']))
+        opening, closing = rng.choice(['[(', '[(<', '(']), rng.choice(['])', '])>', ')'])
+
+        def br(chars):
+            k = rng.randint(1, 2)
+            out = []
+            for _ in range(k):
+                d = {'expect': rng.choice(chars) if rng.random() < 0.7 else tuple(rng.sample(chars, min(len(chars), 2))), 'grade_decimal': rng.choice(pal), 'msg': rng.choice(['', 'bm'])}
+                out.append(d)
+            return tuple(out) if rng.random() < 0.8 else out[0]['expect'] if isinstance(out[0]['expect'], str) else tuple(out)
+        ans = {'expect': [br(opening), rng.choice(['a', 'b', ('a', {'expect': 'b', 'grade_decimal': rng.choice(pal), 'msg': 'alt'})]),
+                          rng.choice(['b', 'c', ('b', {'expect': 'a', 'grade_decimal': rng.choice(pal), 'msg': ''})]), br(closing)],
+               'grade_decimal': rng.choice([1, 1, Fraction(1, 2)]), 'msg': rng.choice(['', 'overall'])}
+        pc = rng.random() < 0.7
+        try:
+            g = IntervalGrader(answers=ans, subgrader=sub, opening_brackets=opening, closing_brackets=closing, partial_credit=pc)
+        except Exception as e:
+            ctx.count('interval:config_rejected:' + type(e).__name__); continue
+        canon = g.config['answers'][0]
+        exp = canon['expect'][0]
+        brj = lambda lst: [{'expect': list(x['expect']), 'grade_decimal': frac_to_str(x['grade_decimal']), 'msg': x['msg']} for x in lst]
+        itemj = lambda lst: [{'expect': list(x['expect']), 'grade_decimal': frac_to_str(x['grade_decimal']), 'msg': x['msg'], 'ok': x['ok']} for x in lst]
+        for _ in range(ctx.scale(8, 12)):
+            r = rng.random()
+            o = rng.choice(opening) if rng.random() < 0.9 else rng.choice('<{|a')
+            c = rng.choice(closing) if rng.random() < 0.9 else rng.choice('>}|b')
+            items = [rng.choice(['a', 'b', 'c', 'a', 'b', 'x', ' a', 'a '] + ([''] if rng.random() < 0.15 else [])) for _ in range(rng.choice([2] * 9 + [1, 3]))]
+            inp = o + ','.join(items) + c
+            if r < 0.15:
+                inp = rng.choice(['  ', ' '] ) + inp + rng.choice(['', ' ', '\t'])
+            elif r < 0.20:
+                inp = rng.choice(['', 'ab', '[a)', '[,]', 'a,b', '[a,b', 'ünï∑x'])
+            kind, val = GG.run_impl(lambda: g.check_response(dict(canon, expect=exp), inp))
+            case = {'part': 'interval', 'answers': repr(ans), 'opening': opening, 'closing': closing, 'partial_credit': pc, 'input': inp}
+            if kind == 'out':
+                res = {k2: val[k2] for k2 in ('ok', 'grade_decimal', 'msg')}
+                bad = wf_entry(res, strict_ok=True)
+                if bad:
+                    ctx.violation('IntervalGrader: ' + bad, case, impl=GG.canon_result(res))
+                implc = GG.canon_result(res)
+            else:
+                implc = val
+                if val[0] != 'mitx':
+                    ctx.violation('IntervalGrader.check_response raised a non-library exception', case, impl=val)
+            ctx.case(dict(case, impl=implc), nontrivial_key=('iv', repr(ans), inp) if kind == 'out' and 0 < val['grade_decimal'] < 1 else None, kind='interval:' + (kind if kind == 'err' else 'graded'))
+            asks.append({'op': 'interval_check', 'cfg': {'opening': opening, 'closing': closing, 'delimiter': ',', 'partial_credit': pc}, 'tab': tj, 'wrong_msg': sub.config['wrong_msg'],
+                         'meta': {'grade_decimal': frac_to_str(canon['grade_decimal']), 'msg': canon['msg'], 'ok': canon['ok']},
+                         'open': brj(exp[0]), 'lo': itemj(exp[1]), 'hi': itemj(exp[2]), 'close': brj(exp[3]), 'input': inp})
+            meta.append((case, kind, implc))
+    if ctx.driver:
+        for (case, kind, implc), o in zip(meta, ctx.driver.ask_many(asks)):
+            if kind == 'err':
+                if o.get('err') != implc:
+                    ctx.disagree('IntervalGrader error differs from the model', case, implc, o)
+            elif o.get('out') != implc:
+                ctx.disagree('IntervalGrader result differs from the model', case, implc, o)
+
+
 def run(ctx):
     run_model_part(ctx)
+    part_interval(ctx)
     monitor(ctx)
     debug_isolation(ctx)
 
